@@ -277,6 +277,15 @@ static inline void *push_ds_field(flatcc_builder_t *B, uoffset_t size, uint16_t 
      * for an error.
      */
     offset = alignup_uoffset(B->ds_offset, align);
+    /*
+     * The table size stored in the vtable includes the vtable offset
+     * field and must fit a voffset, as must every field position.
+     * Fail here rather than store truncated values at `end_table`.
+     */
+    if (size >= table_limit || offset >= table_limit - size) {
+        check(0, "table too large");
+        return 0;
+    }
     if ((B->ds_offset = offset + size) >= B->ds_limit) {
         if (reserve_ds(B, B->ds_offset + 1, table_limit)) {
             return 0;
@@ -294,6 +303,10 @@ static inline void *push_ds_offset_field(flatcc_builder_t *B, voffset_t id)
     uoffset_t offset;
 
     offset = alignup_uoffset(B->ds_offset, field_size);
+    if (offset >= table_limit - field_size) {
+        check(0, "table too large");
+        return 0;
+    }
     if ((B->ds_offset = offset + field_size) > B->ds_limit) {
         if (reserve_ds(B, B->ds_offset, table_limit)) {
             return 0;
